@@ -326,6 +326,7 @@ fn attack_input(ti: usize, t: &Target, args: Vec<Val>, tier: &Tier, seed: u64, r
     b
 }
 
+pub static GEN_FAILED_LATE: std::sync::Mutex<Vec<String>> = std::sync::Mutex::new(Vec::new());
 pub static GEN_STATS: std::sync::Mutex<(usize, usize)> = std::sync::Mutex::new((0, 0));
 
 fn gen_dir() -> PathBuf {
@@ -390,9 +391,19 @@ fn load_targets(catalogue: &Path, only: &Option<String>, workers: usize, n_gener
             .map_err(|e| format!("{file}::{name}: {e}"))
     });
     let mut out = vec![];
-    for t in targets {
+    for (t, (file, _, _)) in targets.into_iter().zip(progs.iter()) {
         match t {
             Ok(t) => out.push(t),
+            // Generated instantiations and corpus files may also be refused (or crash the
+            // compiler) after Sierra generation; that is not a C03 matter: counted, not fatal.
+            Err(e) if file.starts_with('/') => {
+                if file.contains("/gen_") {
+                    let mut g = GEN_STATS.lock().unwrap();
+                    g.0 = g.0.saturating_sub(1);
+                    g.1 += 1;
+                }
+                GEN_FAILED_LATE.lock().unwrap().push(e);
+            }
             Err(e) => harness_error(&format!("cannot prepare target: {e}")),
         }
     }
@@ -551,7 +562,7 @@ fn run(opts: Opts) -> i32 {
     ev.set("target_functions", json!(targets.len()));
     {
         let g = GEN_STATS.lock().unwrap();
-        ev.set("generated_instantiations", json!({"accepted_by_compiler": g.0, "rejected_by_compiler": g.1, "kinds": ["bounded_int_div_rem ranges", "downcast ranges", "bounded_int_constrain ranges"]}));
+        ev.set("generated_instantiations", json!({"accepted_by_compiler": g.0, "rejected_by_compiler": g.1, "refused_or_crashed_after_sierra_generation": GEN_FAILED_LATE.lock().unwrap().clone(), "kinds": ["bounded_int_div_rem ranges", "downcast ranges", "bounded_int_constrain ranges"]}));
     }
     let _ = std::fs::remove_dir_all(gen_dir());
     ev.set("target_functions_unsupported_signature", json!(total.skipped));
